@@ -187,6 +187,33 @@ def rule_table_masks(ctx):
     if k < 1:
         ctx.fail("_calc_tap_from_dataframe: assignment of the table shift not found")
     rule_keyed_assignment(ctx, R)
+    # which transformers go through the table: every one with tap_dependency_table, whatever its tap changer type
+    from ppsa.astutil import inline_locals
+    from ppsa import facts as _f
+    dom = set(_f.schema_of(ctx.repo).columns["trafo"]["tap_changer_type"].isin or [])
+    tt = [n for n in ast.walk(fi.node) if isinstance(n, ast.Assign) and len(n.targets) == 1 and isinstance(n.targets[0], ast.Name) and n.targets[0].id == "tap_table"
+          and "tap_dependency_table" in names_in(n.value)]
+    for st in tt:
+        e = inline_locals(fi.node, st.value, keep=("tap_dependency_table", "tap_changer_type"))
+        consts = {c.value for c in ast.walk(e) if isinstance(c, ast.Constant) and isinstance(c.value, str)}
+        ok = not (consts & dom) or dom <= consts
+        ctx.ob(R, f"{BB}::_calc_tap_from_dataframe::tap_table", ok,
+               "every transformer with tap_dependency_table goes through the table" if ok else
+               f"`tap_table = {norm(e, 110)}` admits only the types {sorted(consts & dom)}: a table transformer of type {sorted(dom - consts)} skips the "
+               "ratio / angle lookup while its vk / vkr still come from the table", fi.loc(st))
+    if not tt:
+        ctx.fail("_calc_tap_from_dataframe: tap_table mask not found")
+    f3 = ctx.repo.func(f"{BB}:_calculate_3w_tap_changers")
+    sp = [n for n in ast.walk(f3.node) if isinstance(n, ast.Assign) and len(n.targets) == 1 and isinstance(n.targets[0], ast.Name) and n.targets[0].id == "at_star_point"]
+    if not sp:
+        ctx.fail("_calculate_3w_tap_changers: at_star_point not found")
+    for st in sp:
+        t = ast.unparse(st.value)
+        ok = "tap_dependency_table" not in t and "tap_at_star_point" in (t + " " + " ".join(ast.unparse(x.value) for x in sp))
+        ctx.ob(R, f"{BB}::_calculate_3w_tap_changers::star-point-mask", "tap_dependency_table" not in t,
+               "the tap side of every star-point tap changer is flipped, table based or not" if "tap_dependency_table" not in t else
+               f"`at_star_point = {t[:90]}` leaves table transformers out: _calc_tap_from_dataframe still inverts their table ratio, now on the wrong winding",
+               f3.loc(st))
     fv = ctx.repo.func(f"{BB}:_get_vk_values_from_table")
     ms = [n for n in ast.walk(fv.node) if isinstance(n, ast.Assign) and len(n.targets) == 1 and isinstance(n.targets[0], ast.Name) and n.targets[0].id == "mask"]
     if not ms:
@@ -204,6 +231,8 @@ def variants(repo):
     V = Variant
     return [
         V("vk taken in table order", bb, in_function("_get_vk_values_from_table", lambda s: s.replace("            vk_new = [vk_mapping.get(key, 1) for key in zip(cleaned_id_characteristic, cleaned_step)]\n", "            vk_new = filtered_df[vk_var].values\n", 1)), "merged-column"),
+        V("tabular type skips the table lookup", bb, in_function("_calc_tap_from_dataframe", lambda s: s.replace("            tap_table = np.logical_and(tap_dependency_table, tap_changer_type is not None)\n", "            tap_table = np.logical_and(tap_dependency_table, np.isin(tap_changer_type, (\"Ratio\", \"Symmetrical\", \"Ideal\")))\n", 1)), "tap_table"),
+        V("star-point flip not for table transformers", bb, in_function("_calculate_3w_tap_changers", replace_once("    at_star_point = t3.tap_at_star_point.values\n", "    at_star_point = t3.tap_at_star_point.values.astype(bool) & ~t3.tap_dependency_table.fillna(False).values.astype(bool)\n")), "star-point-mask"),
         V("ideal formula also for table transformers", bb, replace_once('tap_ideal = np.logical_and(tap_changer_type == "Ideal", tap_no_table)', 'tap_ideal = tap_changer_type == "Ideal"'), "TABLE-MASK"),
         V("table angle without the lv sign", bb, in_function("_calc_tap_from_dataframe", lambda s: s.replace("                        shift = [-shift_mapping.get(key, 1) for key in id_step]", "                        shift = [shift_mapping.get(key, 1) for key in id_step]", 1).replace("                    if direction == 1:\n                        ratio = [voltage_mapping.get(key, 1) for key in id_step]\n                        shift = [shift_mapping.get(key, 1) for key in id_step]\n                    else:\n                        ratio = [voltage_mapping.get(key, 1) for key in id_step]\n                        shift = [shift_mapping.get(key, 1) for key in id_step]\n", "                    ratio = [voltage_mapping.get(key, 1) for key in id_step]\n                    shift = [shift_mapping.get(key, 1) for key in id_step]\n", 1)), "table-shift"),
         V("vk lookup skipped at the neutral position", bb, in_function("_get_vk_values_from_table", lambda s: s.replace("            mask = tap_dependency_table\n", "            mask = tap_dependency_table & (tap_pos != get_trafo_values(trafo_df, \"tap_neutral\"))\n", 1)), "_get_vk_values_from_table::mask"),
